@@ -56,29 +56,31 @@ func writeEvidence(cfg checkCfg, b *Built, ag *agg, corpus map[string][3]int, si
 		return float64(n) / hours
 	}
 	faults := map[string]any{
-		"preempt":                           ag.stats.Preempts,
-		"same_object_preempt":               ag.stats.SameObjPreempts,
-		"op_boundary_yields":                ag.stats.OpBoundary,
-		"history_shift_runs":                ag.runs - ag.coldRuns,
-		"cold_first_runs":                   ag.coldRuns,
-		"map_order":                         ag.stats.MapPerms,
-		"clock_reads":                       ag.stats.ClockReads,
-		"clock_jump":                        ag.stats.ClockJumps,
-		"pool_get":                          ag.stats.PoolGets,
-		"pool_drop":                         ag.stats.PoolDrops,
-		"pool_steal":                        ag.stats.PoolSteals,
-		"lock_contend":                      ag.stats.LockContend,
-		"rand_draws":                        ag.stats.RandDraws,
-		"library_go_spawns":                 ag.stats.GoSpawns,
-		"sim_sync_operations":               ag.stats.SyncOps,
-		"starvation_guards":                 ag.stats.StarveGuards,
-		"task_stall":                        ag.stats.Naps,
-		"channel_operations":                ag.stats.ChanOps,
-		"select_statements":                 ag.stats.Selects,
-		"timers_fired":                      ag.stats.TimersFired,
-		"forced_gc_with_finalizers_drained": ag.stats.ForcedGCs,
-		"leaked_library_goroutines":         ag.stats.LeakedTasks,
-		"note":                              "kinds with 0 sites in the tree under test cannot fire; see seams_rewritten",
+		"preempt":                             ag.stats.Preempts,
+		"same_object_preempt":                 ag.stats.SameObjPreempts,
+		"op_boundary_yields":                  ag.stats.OpBoundary,
+		"history_shift_runs":                  ag.runs - ag.coldRuns,
+		"cold_first_runs":                     ag.coldRuns,
+		"map_order":                           ag.stats.MapPerms,
+		"clock_reads":                         ag.stats.ClockReads,
+		"clock_jump":                          ag.stats.ClockJumps,
+		"pool_get":                            ag.stats.PoolGets,
+		"pool_drop":                           ag.stats.PoolDrops,
+		"pool_steal":                          ag.stats.PoolSteals,
+		"lock_contend":                        ag.stats.LockContend,
+		"rand_draws":                          ag.stats.RandDraws,
+		"library_go_spawns":                   ag.stats.GoSpawns,
+		"sim_sync_operations":                 ag.stats.SyncOps,
+		"starvation_guards":                   ag.stats.StarveGuards,
+		"task_stall":                          ag.stats.Naps,
+		"channel_operations":                  ag.stats.ChanOps,
+		"select_statements":                   ag.stats.Selects,
+		"timers_fired":                        ag.stats.TimersFired,
+		"timers_and_deadlines_created":        ag.stats.TimersMade,
+		"library_goroutines_kept_across_runs": ag.stats.Survivors,
+		"forced_gc_with_finalizers_drained":   ag.stats.ForcedGCs,
+		"leaked_library_goroutines":           ag.stats.LeakedTasks,
+		"note":                                "kinds with 0 sites in the tree under test cannot fire; see seams_rewritten",
 	}
 	samples := []json.RawMessage{}
 	samples = append(samples, ag.samples...)
